@@ -413,6 +413,44 @@ func applyOp(t *tree.Tree, op string) (*tree.Tree, error) {
 	case "reinitinternal":
 		t.ReinitInternalIndexes()
 		return t, nil
+	case "cutedges":
+		if err := need(1); err != nil {
+			return nil, err
+		}
+		x, err := core.ParseRat(f[1])
+		if err != nil {
+			return nil, bad("length")
+		}
+		_, err = t.CutEdgesMaxLength(x) // returns bags of tips; writes branch ids, must leave the tree alone
+		return t, err
+	case "addbip":
+		// AddBipartition(n, some of n's branches given by their SLOT in n.Edges(), length, support)
+		if err := need(4); err != nil {
+			return nil, err
+		}
+		p, e1 := parsePath(f[1])
+		l, e2 := core.ParseRat(f[3])
+		sp, e3 := core.ParseRat(f[4])
+		if e1 != nil || e2 != nil || e3 != nil {
+			return nil, bad("addbip")
+		}
+		n, _, err := core.NodeAt(t, p)
+		if err != nil {
+			return nil, bad("path out of range")
+		}
+		var es []*tree.Edge
+		for _, x := range strings.Split(f[2], ",") {
+			if x == "" {
+				continue
+			}
+			i, err := strconv.Atoi(x)
+			if err != nil || i < 0 || i >= len(n.Edges()) {
+				return nil, bad("slot")
+			}
+			es = append(es, n.Edges()[i])
+		}
+		_, err = t.AddBipartition(n, es, l, sp)
+		return t, err
 	case "updatetipindex":
 		return t, t.UpdateTipIndex()
 	case "identicalone":
@@ -662,7 +700,7 @@ var opKinds = []string{
 	"resolve", "resolve", "rotate", "sorttips", "shuffle", "grafttree", "graftedge", "graftedge", "merge",
 	"identical", "removesingle", "nni", "nni", "rename", "renameauto", "renameregex", "addquotes", "rmquotes",
 	"clone", "subtree", "reinit", "nniapply", "nniapply", "nniapply",
-	"reinitinternal", "updatetipindex", "identicalone",
+	"reinitinternal", "updatetipindex", "identicalone", "cutedges", "addbip", "addbip",
 	"collapseclade", "resolvenamed", "rotateone", "clearlengths", "clearsupports", "clearcomments", "scalelengths", "roundlengths",
 }
 
@@ -796,6 +834,16 @@ func genOp(g *core.G, h *history, k int) string {
 			name = tips[g.Intn(len(tips))]
 		}
 		t2 := secondTree(g, fmt.Sprintf("g%dx", k), g.Chance(0.5))
+		if g.Chance(0.05) && len(tips) > 1 {
+			// a graft that shares a tip name with the host: GraftTreeOnTip does not look (its UpdateTipIndex
+			// error is dropped); the heap must still be a tree
+			for _, pn := range allNodes(t2) {
+				if len(pn.n.Kids) == 0 {
+					pn.n.Name = tips[g.Intn(len(tips))]
+					break
+				}
+			}
+		}
 		return "grafttree:" + core.Escape(name) + ":" + t2.Dump()
 	case "graftedge":
 		if len(nonroot) == 0 {
@@ -831,6 +879,37 @@ func genOp(g *core.G, h *history, k int) string {
 		return fmt.Sprintf("nni:%d:%s", g.Intn(40), b2s(g.Chance(0.3)))
 	case "nniapply":
 		return fmt.Sprintf("nniapply:%d", g.Intn(40))
+	case "cutedges":
+		return "cutedges:" + core.Rat(float64(g.Intn(24))/8)
+	case "addbip":
+		// a node with at least 4 neighbours; 2 … n-2 of its slots (the parent's slot may be among them)
+		var cands []pnode
+		for _, pn := range nodes {
+			nn := len(pn.n.Kids)
+			if len(pn.path) > 0 {
+				nn++
+			}
+			if nn >= 4 {
+				cands = append(cands, pn)
+			}
+		}
+		if len(cands) == 0 {
+			return "resolve:" + fmt.Sprint(g.Intn(1<<30))
+		}
+		pn := cands[g.Intn(len(cands))]
+		nn := len(pn.n.Kids)
+		if len(pn.path) > 0 {
+			nn++
+		}
+		cnt := 2 + g.Intn(nn-3)
+		if g.Chance(0.1) {
+			cnt = 1 + g.Intn(nn) // also the sizes the function refuses
+		}
+		var slots []string
+		for _, i := range g.R.Perm(nn)[:cnt] {
+			slots = append(slots, strconv.Itoa(i))
+		}
+		return fmt.Sprintf("addbip:%s:%s:%s:%s", pathStr(pn.path), strings.Join(slots, ","), core.Rat(float64(g.Intn(16))/8), core.Rat(float64(g.Intn(17))/16))
 	case "identicalone":
 		if len(tips) == 0 {
 			return "reinit"
@@ -876,6 +955,11 @@ func genOp(g *core.G, h *history, k int) string {
 		if g.Chance(0.05) && len(news) >= 2 {
 			news[1] = news[0] // duplicate tip names: refused by the tip index
 		}
+		if g.Chance(0.06) && len(news) >= 1 {
+			// a name with a Newick metacharacter: the writer never quotes (open finding F85,
+			// class NewickUnquotedMetacharName); the history ends after such a step
+			news[g.Intn(len(news))] = []string{"x,y", "x:2", "(q", "p;q", "u[v", "w)z", "k]"}[g.Intn(7)] + fmt.Sprintf("%d", k)
+		}
 		return "rename:" + core.StrList(olds) + ":" + core.StrList(news)
 	case "renameauto":
 		return fmt.Sprintf("renameauto:%s:%s:%d", b2s(g.Chance(0.5)), b2s(g.Chance(0.7)), 2+g.Intn(6))
@@ -902,13 +986,9 @@ func genOp(g *core.G, h *history, k int) string {
 				}
 			}
 		}
-		internals := allNamed && g.Chance(0.5)
-		tipsFlag := tipsNamed
-		if g.Chance(0.1) {
-			// also where the library panics (empty name): the model predicts the panic
-			internals, tipsFlag = g.Chance(0.5), g.Chance(0.7)
-		}
-		return kind + ":" + b2s(internals) + ":" + b2s(tipsFlag)
+		_, _ = allNamed, tipsNamed
+		// since 763a2ae nodes without a name are skipped: every flag combination is offered
+		return kind + ":" + b2s(g.Chance(0.5)) + ":" + b2s(g.Chance(0.8))
 	case "subtree":
 		var cands []pnode
 		minKids := 2
@@ -928,6 +1008,15 @@ func genOp(g *core.G, h *history, k int) string {
 	return kind // rerootfirst midpoint unroot sorttips removesingle clone reinit
 }
 
+func hasMetaName(root *core.N) bool {
+	for _, pn := range allNodes(root) {
+		if strings.ContainsAny(pn.n.Name, "()[],:;") {
+			return true
+		}
+	}
+	return false
+}
+
 func genHistory(c *core.Ctx, g *core.G, idx int) {
 	start := startTree(g)
 	h := newHistory(c, start)
@@ -938,6 +1027,9 @@ func genHistory(c *core.Ctx, g *core.G, idx int) {
 	for k := 1; k <= n; k++ {
 		if !h.step(genOp(g, h, k)) {
 			return
+		}
+		if hasMetaName(h.cur) {
+			return // every later text would repeat the same finding
 		}
 	}
 }
